@@ -235,34 +235,22 @@ fn check_newline_iter(text: &str, rep: &mut Report, states: &mut u64, transition
 const SIGMA: [&str; 6] = ["a", "é", "\n", "\r", "😀", "\u{feff}"];
 
 fn text_part(n: usize, iter_n: usize) -> (Report, u64, u64) {
-    const NS: usize = 25;
-    let parts = par_shards(NS + 1, 16 << 20, move |shard, nshards| {
+    const NS: usize = 36;
+    let parts = par_shards(NS, 16 << 20, move |shard, nshards| {
         let mut rep = Report::default();
         let (mut states, mut transitions) = (0u64, 0u64);
-        // the BOM only matters at the start: texts are over the first 5 symbols, optionally prefixed by a BOM (shard == 6 handles the BOM prefix)
-        let alpha = &SIGMA[..5];
-        if shard < NS {
-            for_each_string(alpha, n, shard, NS, &mut |t, len| {
-                check_line_index(t, &mut rep);
-                *rep.by_bound.entry(format!("line-index len={}", len)).or_insert(0) += 1;
-                if len <= iter_n && !t.contains('😀') {
-                    check_newline_iter(t, &mut rep, &mut states, &mut transitions);
-                    *rep.by_bound.entry(format!("newline-iter len={}", len)).or_insert(0) += 1;
-                }
-                if t.contains('\n') || t.contains('\r') { rep.nontrivial += 1; }
-            });
-        } else if shard == NS {
-            // BOM-prefixed texts
-            let mut buf = String::new();
-            for_each_string(alpha, n.saturating_sub(1), 0, 1, &mut |t, len| {
-                buf.clear();
-                buf.push('\u{feff}');
-                buf.push_str(t);
-                check_line_index(&buf, &mut rep);
-                *rep.by_bound.entry(format!("line-index bom+len={}", len)).or_insert(0) += 1;
-                if t.contains('\n') || t.contains('\r') { rep.nontrivial += 1; }
-            });
-        }
+        // U+FEFF is a BOM only at offset 0; anywhere else it is an ordinary (zero-width) character that takes a column, so it is a full member
+        // of the alphabet
+        let alpha = &SIGMA[..];
+        for_each_string(alpha, n, shard, NS, &mut |t, len| {
+            check_line_index(t, &mut rep);
+            *rep.by_bound.entry(format!("line-index len={}", len)).or_insert(0) += 1;
+            if len <= iter_n && !t.contains('😀') && !t.contains('\u{feff}') {
+                check_newline_iter(t, &mut rep, &mut states, &mut transitions);
+                *rep.by_bound.entry(format!("newline-iter len={}", len)).or_insert(0) += 1;
+            }
+            if t.contains('\n') || t.contains('\r') { rep.nontrivial += 1; }
+        });
         let _ = nshards;
         (rep, states, transitions)
     });
@@ -295,15 +283,18 @@ fn range_part() -> Report {
     macro_rules! cmp {
         ($rep:expr, $what:expr, $inp:expr, $got:expr, $want:expr) => {{
             $rep.evaluations += 1;
-            let g = $got;
             let w = $want;
-            {
-                let d = format!("{:?}", w);
-                let class = if d.starts_with("None") { "None/panic" } else if d.starts_with("Some") { "Some" } else if d == "true" || d == "false" || d == "Less" || d == "Greater" || d == "Equal" { d.as_str() } else { "value" };
-                $rep.outcome(&format!("range:{}:{}", $what, class));
-            }
-            if g != w {
-                $rep.fail(&format!("range-algebra · {} differs from the set reading", $what), &$inp, &format!("{:?}", g), &format!("{:?}", w));
+            // an operation that is not documented to panic must not: a panic is an observation, never an engine crash
+            match guarded(|| $got) {
+                Err(p) => $rep.fail(&format!("range-algebra · {} panics", $what), &$inp, &p, &format!("{:?}", w)),
+                Ok(g) => {
+                    let d = format!("{:?}", w);
+                    let class = if d.starts_with("None") { "None/panic" } else if d.starts_with("Some") { "Some" } else if d == "true" || d == "false" || d == "Less" || d == "Greater" || d == "Equal" { d.as_str() } else { "value" };
+                    $rep.outcome(&format!("range:{}:{}", $what, class));
+                    if g != w {
+                        $rep.fail(&format!("range-algebra · {} differs from the set reading", $what), &$inp, &format!("{:?}", g), &format!("{:?}", w));
+                    }
+                }
             }
         }};
     }
